@@ -962,6 +962,64 @@ def check_spk_search(chk, F):
     chk.floor(rid, "cases", n, 170)
 
 
+# ---- R16.11 BIP-67 ordering -------------------------------------------------------------------------------------------------------
+
+def check_bip67(chk, F):
+    import itertools
+    from ..interp import Machine, Adt, PyVec, Panic
+    from ..builtins import deref
+    rid = "R16.11"
+    chk.rule(rid, "Threshold::into_sorted_bip67 / into_sorted_bip67_xonly (what sortedmulti / sortedmulti_a encode and satisfy with) "
+                  "return the same k and the same keys ordered by their 33-byte compressed / 32-byte x-only serialization, "
+                  "lexicographically ascending, whatever order they were listed in (all permutations of key sets whose two "
+                  "orders differ); is_sorted_bip67(_xonly) holds exactly for the lists in that order")
+    T = "primitives::threshold::Threshold"
+    try:
+        fns = {nm: F.fn(nm, file="primitives/threshold.rs") for nm in ("into_sorted_bip67", "into_sorted_bip67_xonly", "is_sorted_bip67",
+                                                                      "is_sorted_bip67_xonly")}
+    except KeyError as e:
+        chk.fail(rid, "anchor", "missing anchor %s" % e, kind="unanalysable")
+        return
+    chk.saw(*fns.values())
+    # name -> (parity byte, x coordinate bytes): the full order looks at the parity byte first, the x-only order does not
+    ser = {"A": (3, [0x00, 0x10]), "B": (2, [0xff, 0x01]), "C": (2, [0x80, 0x00]), "D": (3, [0x80, 0x00]), "E": (2, [0x00, 0x10, ])}
+    h = {}
+    h["ToPublicKey::to_public_key"] = lambda m_, a, c: Adt("bitcoin::PublicKey", "PublicKey", {"compressed": True, "inner": ("secp", deref(a[0]))})
+    h["miniscript::ToPublicKey::to_public_key"] = h["ToPublicKey::to_public_key"]
+    h["ToPublicKey::to_x_only_pubkey"] = lambda m_, a, c: ("xonly", deref(a[0]))
+    h["miniscript::ToPublicKey::to_x_only_pubkey"] = h["ToPublicKey::to_x_only_pubkey"]
+    h["bitcoin::secp256k1::PublicKey::serialize"] = lambda m_, a, c: PyVec([ser[deref(a[0])[1]][0]] + ser[deref(a[0])[1]][1])
+    h["bitcoin::secp256k1::XOnlyPublicKey::serialize"] = lambda m_, a, c: PyVec(list(ser[deref(a[0])[1]][1]))
+    h["bitcoin::XOnlyPublicKey::serialize"] = h["bitcoin::secp256k1::XOnlyPublicKey::serialize"]
+    m = Machine(F, strict=True, hooks=h)
+    n = 0
+    try:
+        for names in (["A", "B"], ["A", "B", "C"], ["A", "B", "C", "D"], ["A", "E"], ["B", "C", "D", "E"]):
+            for perm in itertools.permutations(names):
+                for nm, keyf in (("into_sorted_bip67", lambda x: [ser[x][0]] + ser[x][1]), ("into_sorted_bip67_xonly", lambda x: ser[x][1])):
+                    th = Adt(T, "Threshold", {"k": 2 if len(perm) > 1 else 1, "inner": PyVec(list(perm))})
+                    r = m.call_callee({"def": fns[nm], "resolved": fns[nm], "name": nm, "targs": ["PK"], "cargs": ["20"]}, [th])
+                    n += 1
+                    got = [deref(x) for x in deref(r.fields["inner"]).items]
+                    want = sorted(perm, key=keyf)            # Python's sort is stable, as slice::sort_by_key is
+                    # keys with equal serialization may come in either order
+                    good = [keyf(x) for x in got] == [keyf(x) for x in want] and sorted(got) == sorted(perm) and r.fields["k"] == th.fields["k"]
+                    chk.obligation(rid, good, "%s|%s" % (nm, "".join(perm)), "%s of %s gives k=%r %r, expected %r" % (nm, list(perm), r.fields["k"], got, want),
+                                   where="src/primitives/threshold.rs")
+                    isn = "is_sorted_bip67" + ("_xonly" if nm.endswith("xonly") else "")
+                    th2 = Adt(T, "Threshold", {"k": 1, "inner": PyVec(list(perm))})
+                    b = m.call_callee({"def": fns[isn], "resolved": fns[isn], "name": isn, "targs": ["PK"], "cargs": ["20"]}, [th2])
+                    n += 1
+                    ks = [keyf(x) for x in perm]
+                    chk.obligation(rid, b is (ks == sorted(ks)), "%s|%s" % (isn, "".join(perm)), "%s of %s is %r" % (isn, list(perm), b),
+                                   where="src/primitives/threshold.rs")
+    except Unsupported as e:
+        chk.fail(rid, "unanalysable", "unanalysable: %s" % e, where=e.where, kind="unanalysable")
+    except Panic as e:
+        chk.fail(rid, "panic", "panic: %s" % e, where="src/primitives/threshold.rs")
+    chk.floor(rid, "cases", n, 200)
+
+
 def run(chk):
     F = chk.facts()
     chk.explanation = (
@@ -985,3 +1043,4 @@ def run(chk):
     chk.guard("R16.8", "secret-keys", check_secret_keys, chk, F)
     chk.guard("R16.9", "desc-type", check_desc_type, chk, F)
     chk.guard("R16.10", "spk-search", check_spk_search, chk, F)
+    chk.guard("R16.11", "bip67", check_bip67, chk, F)
